@@ -382,7 +382,7 @@ class World:
             return list(self.log)
 
 
-def install(world, serial_driver=False, prrt=True):
+def install(world, serial_driver=False, prrt=True, pyserial=True):
     """Rebind the I/O entry points inside the imported cflib modules and rebuild CLASSES."""
     import usb.core
     import cflib.crtp
@@ -412,7 +412,7 @@ def install(world, serial_driver=False, prrt=True):
     ud.socket = _FakeSocketModule(world)
     sd.UARTTransport = lambda dev, baud: _FakeTransport(world, 'uart', dev, baud)
     sd.list_ports = _FakeListPorts()
-    sd.found_serial = True
+    sd.found_serial = bool(pyserial)      # False: the optional pyserial package is not installed
     if prrt:
         pd.prrt = _FakePrrtModule(world)
         pd.prrt_installed = True
@@ -910,14 +910,55 @@ def dispatch_case(p, world, crtp, kind, uri, cfg, want_sample=False):
                         'get_link_driver(%r) returned a %s for a URI that is %s' % (uri, res, kind), rp)
 
 
+def part_replug(_):
+    """Histories of parses on one process while dongles are plugged and unplugged: a serial-number id names the dongle
+    that has that serial *now*."""
+    from cflib.crtp.radiodriver import RadioDriver
+    p = Partial()
+    world = World()
+    install(world)
+    full = list(world.dongles)
+    serial_tokens = [(tok, idx) for tok, idx, kind in DONGLES if kind.startswith('serial')]
+    # every ordered pair of plug states (subsets keeping their relative order), parse in the first, then in the second
+    import itertools
+    subsets = [tuple(c) for k in range(1, len(full) + 1) for c in itertools.combinations(range(len(full)), k)]
+    for first in subsets:
+        for second in subsets:
+            for tok, idx in serial_tokens:
+                uri = build_uri(tok, 80, '2M', 'E7E7E7E701')
+                results = []
+                for state in (first, second):
+                    world.dongles[:] = [full[i] for i in state]
+                    exp = state.index(idx) if idx in state else None
+                    try:
+                        got = RadioDriver.parse_uri(uri)[0]
+                    except HarnessError:
+                        raise
+                    except Exception as e:  # noqa
+                        got = 'raises ' + type(e).__name__
+                    results.append((exp, got))
+                p.case(key=('replug', first, second, tok), outcome=('replug', tuple(r[0] is None for r in results)))
+                for step, (exp, got) in enumerate(results):
+                    ok = (got == exp) if exp is not None else (isinstance(got, str))
+                    if not ok:
+                        p.violation('parse:serial_id_after_replug:%s' % ('unplugged' if exp is None else 'index'),
+                                    'dongles plugged %r then %r: parse_uri(%r) in state %d names dongle %r, the dongle with that '
+                                    'serial is %s' % ([SERIALS[i] for i in first], [SERIALS[i] for i in second], uri, step + 1, got,
+                                                      'not plugged in' if exp is None else 'number %d' % exp),
+                                    {'part': 'replug', 'first': list(first), 'second': list(second), 'uri': uri})
+    world.dongles[:] = full
+    return p
+
+
 def part_dispatch(cfg):
     p = Partial()
     world = World()
-    crtp = install(world, serial_driver=cfg[0], prrt=cfg[1])
+    pyserial = cfg[2] if len(cfg) > 2 else True
+    crtp = install(world, serial_driver=cfg[0], prrt=cfg[1], pyserial=pyserial)
     schemes = _scheme_classes()
     for i, (kind, uri) in enumerate(WELL_FORMED):
-        if kind == 'serial' and not cfg[0]:
-            continue            # covered as 'optional_driver_disabled' below
+        if kind == 'serial' and (not cfg[0] or not pyserial):
+            continue            # covered as 'optional_driver_disabled' below / not demanded without pyserial
         if kind == 'prrt' and not cfg[1]:
             # claimed, but get_link_driver raises 'PRRT is missing': only the claim is demanded
             cl = claimers(crtp, uri)
@@ -1179,9 +1220,12 @@ def run(ck):
     connect_jobs = [('connect', (thorough, c, nconn)) for c in range(nconn)]
     scan_jobs = [('scan', (thorough, ai)) for ai in range(len(SCAN_ADDRESSES))]
     dispatch_jobs = [('dispatch', (s, pr)) for s in (False, True) for pr in (True, False)]
+    # the serial driver enabled on a machine without pyserial: it must still leave the other schemes alone
+    dispatch_jobs.append(('dispatch', (True, True, False)))
+    replug_jobs = [('replug', None)]
     nol = 12
     openlink_jobs = [('openlink', (thorough, s, c, nol)) for s in (False, True) for c in range(nol)]
-    jobs = _interleave([parse_jobs, connect_jobs, scan_jobs, dispatch_jobs, openlink_jobs])
+    jobs = _interleave([parse_jobs, connect_jobs, scan_jobs, dispatch_jobs, openlink_jobs, replug_jobs])
     ck.pmap(_dispatch, jobs)
     ck.exhaustive = True
     ck.note('address_strings', len(ADDRESSES))
